@@ -35,6 +35,8 @@ type vStore struct {
 	mid atomic.Pointer[func(op *base.VerifOp, actor string) error]
 	// stepFilter limits which operations are scheduling points (nil = all ops of actors).
 	stepFilter atomic.Pointer[func(op *base.VerifOp) bool]
+	// postHook, if set, is called synchronously after every operation (before it returns to the caller)
+	postHook atomic.Pointer[func(op *base.VerifOp)]
 }
 
 func newVStore(t testing.TB) *vStore {
@@ -99,7 +101,18 @@ func (s *vStore) midHook(op *base.VerifOp) error {
 	return nil
 }
 
+func (s *vStore) SetPostHook(f func(op *base.VerifOp)) {
+	if f == nil {
+		s.postHook.Store(nil)
+		return
+	}
+	s.postHook.Store(&f)
+}
+
 func (s *vStore) post(op *base.VerifOp) {
+	if f := s.postHook.Load(); f != nil {
+		(*f)(op)
+	}
 	if !s.logOn.Load() {
 		return
 	}
